@@ -134,7 +134,9 @@ def support_lines(lines, rng, pars_fixed=None, omit=()):
             out.append(f"{name}::Spline::Gamma::{i}   {rng.choice([0, 2])}   {0.001 * (i + 1) + rng.random() * 1e-6:.10f}   "
                        f"{0.000100001234 if i % 2 else 0}")
     if "kMatrix" in kinds:
-        for i in range(5):
+        order = list(range(5))
+        rng.shuffle(order)                 # parameter lines are order-free: f_scatt3 may stand before f_scatt0
+        for i in order:
             out.append(f"f_scatt{i}   {rng.choice([0, 2])}   {0.1 * (i + 1) + rng.random() * 1e-7:.9f}   0.0100000123")
         for p in range(5):
             for nm in ("pipi", "KK", "4pi", "EtaEta", "EtapEta", "mass"):
